@@ -155,3 +155,12 @@ impl ColorEvaluator {
         2.0 * (1.0 - logistic_exp(E * repetition_interval - 2.0 * E, None))
     }
 }
+
+#[cfg(rosu_pp_verif)]
+impl Color {
+    /// Verification hook: the value `strain_value_at` returned for every
+    /// processed difficulty object.
+    pub fn verif_object_strains(&self) -> &[f64] {
+        &self.strain_skill_object_strains
+    }
+}
